@@ -388,7 +388,14 @@ func (m *vmachine) exec(op []uint64, name string) (string, bool) {
 		m.reset(op[2])
 		return m.run(func() (int, uint64) { return 0, 0 })
 	case "alloc":
+		// frames handed to the allocator are dirty (pattern = frame number): a new level that is
+		// not cleared shows
 		m.allocQ = append([]uint64(nil), op...)
+		for _, f := range op {
+			if m.inArena(uintptr(f)<<12, 4096) {
+				m.fillPattern(f, f)
+			}
+		}
 		return m.run(func() (int, uint64) { return 0, 0 })
 	case "map":
 		return m.run(func() (int, uint64) {
